@@ -20,7 +20,10 @@ class Members:
     becomes verified by (a) coming out of `<self.parent>.get_entity / get_data`, (b) iterating `<self.parent>.children`, (c) the
     true edge of `x in <children collection>` / `x.uid in <uids of the children>` (false edge of `not in`)."""
 
-    def __init__(self, fn):
+    def __init__(self, fn, maps=()):
+        """maps: parameters that are translation tables (uid of a source child -> uid of its copy under the new parent): what comes out
+        of `<map>[k]` / `<map>.get(k)` / `map(<map>.get, ks)` is verified (it names a child of the new parent)"""
+        self.maps = set(maps)
         self.fn = fn
         self.node = fn.node
         self.sa = single_assignments(fn.node)
@@ -58,6 +61,10 @@ class Members:
             return self.is_children(x.args[0], _depth + 1)
         return False
 
+    def is_map(self, e) -> bool:
+        x = self._x(e)
+        return isinstance(x, ast.Name) and x.id in self.maps
+
     def scoped_lookup(self, e) -> bool:
         return isinstance(e, ast.Call) and isinstance(e.func, ast.Attribute) and e.func.attr in SCOPED_LOOKUPS and self.is_parent(e.func.value)
 
@@ -76,14 +83,19 @@ class Members:
             if self.scoped_lookup(e):
                 return False
             f = e.func
-            if isinstance(f, ast.Attribute) and f.attr == "get" and self.is_children(f.value):
-                return False  # a look-up in a mapping built from the parent's children
+            if isinstance(f, ast.Attribute) and f.attr == "get" and (self.is_children(f.value) or self.is_map(f.value)):
+                return False  # a look-up in a mapping built from the parent's children / in the table of copied children
+            if isinstance(f, ast.Name) and f.id == "map" and len(e.args) == 2 and isinstance(e.args[0], ast.Attribute) and e.args[0].attr in ("get", "__getitem__") \
+                    and self.is_map(e.args[0].value):
+                return False
+            if isinstance(f, ast.Name) and f.id in ("list", "tuple", "set", "sorted") and len(e.args) == 1 and not e.keywords:
+                return self.tainted(e.args[0], T)
             if isinstance(f, ast.Name) and f.id == "isinstance":
                 return False
             recv = f.value if isinstance(f, ast.Attribute) else None
             return any(self.tainted(a, T) for a in e.args) or any(self.tainted(k.value, T) for k in e.keywords) or (recv is not None and self.tainted(recv, T))
         if isinstance(e, ast.Subscript):
-            return not self.is_children(e.value) and self.tainted(e.value, T)
+            return not self.is_children(e.value) and not self.is_map(e.value) and self.tainted(e.value, T)
         if isinstance(e, ast.Starred):
             return self.tainted(e.value, T)
         if isinstance(e, ast.IfExp):
@@ -192,6 +204,28 @@ class Members:
         return frozenset(cur)
 
     # ------------------------------------------------------------------ result
+    def handed_over(self, key="properties"):
+        """[(node, unverified?)] for every value the function hands over under the name `key`: a keyword argument of a call, an entry
+        of a dict display, a store `d[key] = v` — evaluated in the state of the statement that contains it"""
+        out = []
+        for n in self.g.nodes:
+            if n.ast is None or isinstance(n.ast, list) or n not in self.IN or n.kind not in ("stmt", "test", "return", "foriter"):
+                continue
+            st = self.IN[n]
+            for x in ast.walk(n.ast):
+                if isinstance(x, ast.Call):
+                    for k in x.keywords:
+                        if k.arg == key:
+                            out.append((k.value, self.tainted(k.value, st)))
+                elif isinstance(x, ast.Dict):
+                    for k, v in zip(x.keys, x.values):
+                        if isinstance(k, ast.Constant) and k.value == key:
+                            out.append((v, self.tainted(v, st)))
+                elif isinstance(x, ast.Assign) and len(x.targets) == 1 and isinstance(x.targets[0], ast.Subscript) and isinstance(x.targets[0].slice, ast.Constant) \
+                        and x.targets[0].slice.value == key:
+                    out.append((x.value, self.tainted(x.value, st)))
+        return out
+
     def stores(self, field="_properties"):
         """[(statement, unverified?)] for every reachable store `self.<field> = v` / in-place growth of `self.<field>`"""
         out = []
